@@ -348,6 +348,14 @@ pub fn options(args: &[String]) {
     for case in 0..cases {
         let mut c = gen_cfg(&mut rng);
         c.first = None;
+        // the first 12 cases: uniform stepping (first_step = max_step = 0.1; RK4's fixed step) on a non-autonomous problem with
+        // t_eval on the same grid written as k/10: accumulated step ends and requested times agree to rounding, not bitwise
+        let grid_case = case < 12;
+        if grid_case {
+            let back = case >= 6;
+            c = Cfg { kind: Kind::Riccati, method: ALL_METHODS[case % 6], x0: 0.0, xend: if back { -1.5 } else { 1.5 }, rtol: 1e-3, atol: 1e-6,
+                      first: Some(if back { -0.1 } else { 0.1 }), maxstep: Some(0.1), nmax: None };
+        }
         if (c.xend - c.x0).abs() < 1e-6 { continue; }
         let run = |teval: bool, dense: bool, events: bool, nmax: Option<usize>, rng_pts: &Vec<f64>| {
             let mut p = Prob::new(c.kind);
@@ -366,6 +374,7 @@ pub fn options(args: &[String]) {
         let mut pts: Vec<f64> = (0..5).map(|_| c.x0 + (c.xend - c.x0) * rng.unit()).collect();
         pts.push(c.xend);
         pts.sort_by(|a, b| if d > 0.0 { a.partial_cmp(b).unwrap() } else { b.partial_cmp(a).unwrap() });
+        if grid_case { pts = (1..=15).map(|k| d * (k as f64) / 10.0).collect(); }
         let (base, h0, n0) = run(false, false, false, None, &pts);
         let base = match base { Ok(b) => b, Err(_) => continue };
         let mut why = String::new();
